@@ -119,16 +119,40 @@ func unmarshalGob(input []byte, thing interface{}) error {
 	return nil
 }
 
+// xjson: a custom marshaler that is JSON with a one-byte prefix. Byte order of encodings (and so
+// the default order of marshaled keys) is that of JSON; every encoding, and so the layer of every
+// marshal-layered key, differs from plain JSON.
+func marshalXJSON(v interface{}) ([]byte, error) {
+	b, err := json.Marshal(v)
+	if err != nil {
+		return nil, err
+	}
+	return append([]byte{'~'}, b...), nil
+}
+
+func unmarshalXJSON(b []byte, v interface{}) error {
+	if len(b) == 0 || b[0] != '~' {
+		return fmt.Errorf("xjson: missing prefix")
+	}
+	return json.Unmarshal(b[1:], v)
+}
+
 func (c *Config) MarshalFn() func(interface{}) ([]byte, error) {
-	if c.Marshaler == "gob" {
+	switch c.Marshaler {
+	case "gob":
 		return marshalGob
+	case "xjson":
+		return marshalXJSON
 	}
 	return json.Marshal
 }
 
 func (c *Config) UnmarshalFn() func([]byte, interface{}) error {
-	if c.Marshaler == "gob" {
+	switch c.Marshaler {
+	case "gob":
 		return unmarshalGob
+	case "xjson":
+		return unmarshalXJSON
 	}
 	return json.Unmarshal
 }
@@ -155,9 +179,9 @@ func (c *Config) RemoteConfig(kd *KeyDialect, vd *ValDialect, p mast.Persist, ca
 		rc.KeysLike = kd.Like()
 		rc.ValuesLike = vd.Like()
 	}
-	if c.Marshaler == "gob" {
-		rc.Marshal = marshalGob
-		rc.Unmarshal = unmarshalGob
+	if c.Marshaler != "json" && c.Marshaler != "" {
+		rc.Marshal = c.MarshalFn()
+		rc.Unmarshal = c.UnmarshalFn()
 	}
 	if cb != nil {
 		if cb.Marshal != nil {
